@@ -1,0 +1,38 @@
+//go:build verif
+
+package routetab
+
+import (
+	"time"
+
+	"github.com/gogf/gf/v2/os/gcache"
+)
+
+// Verification hooks for the W-NET worlds (add-only, compiled only with -tags verif).
+
+// VerifSetCache replaces the package-level "find route in flight" cache (a
+// process global that every simulated node of one process would share, served
+// by gogf goroutines running on real time) and returns the previous one. The
+// harness installs a cache built with gcache.NewWithAdapter over a node-scoped,
+// fake-time, goroutine-free adapter.
+func VerifSetCache(c *gcache.Cache) (old *gcache.Cache) {
+	old = cache
+	cache = c
+	return old
+}
+
+// VerifFindTimeout returns the default FindRoute timeout.
+func VerifFindTimeout() time.Duration { return findTimeOut }
+
+// VerifTable exposes the service's route table (read-only use by the oracle).
+func (s *Service) VerifTable() *Table { return s.routeTable }
+
+// VerifAllPaths returns every stored path (whether or not a route refers to it).
+func (t *Table) VerifAllPaths() []*Path {
+	var out []*Path
+	t.paths.Range(func(_, v interface{}) bool {
+		out = append(out, v.(*Path))
+		return true
+	})
+	return out
+}
